@@ -176,15 +176,19 @@ def gen_flags(rng, focus, caps):
     if caps.get("hardlink") and rng.chance(1, 5) and focus not in ("C02", "C17"):
         o["hardlinks"] = True
         if rng.chance(2, 3): f.append("-H"); c["h"] = 1
+    elif caps.get("hardlink") and focus == "C02" and rng.chance(1, 3):
+        o["hardlinks"] = True          # source link groups WITHOUT -H: the histories hard-link the destination into a snapshot outside
     if rng.chance(1, 6):
         mn = rng.pick([1, 10, 100, 4096]); f += ["--min-size", str(mn)]; c["min"] = mn
     if rng.chance(1, 6):
         mx = rng.pick([m for m in [10, 100, 3000, 5000] if m >= c.get("min", 0)])
         f += ["--max-size", str(mx)]; c["max"] = mx
     excl = []
-    if rng.chance(1, 4):
+    if rng.chance(1, 4) or (focus in ("C01", "C06", "C16") and rng.chance(1, 3)):
         for _ in range(rng.range(1, 2)):
-            excl.append(rng.pick(["k.log", "a", "sub/", "logs/", "data", "deep/", "c.txt"]))
+            # (directory rules twice: a sibling whose name merely starts with an excluded directory's name — sub.txt, logs.1,
+            #  deep+x, dir-old in the shared name pool — must stay selected: seeded changes C16, C01c)
+            excl.append(rng.pick(["k.log", "a", "sub/", "logs/", "data", "deep/", "c.txt", "sub/", "logs/", "deep/", "dir/", "sub", "dir"]))
         for e in excl: f += ["--exclude", e]
     j = rng.pick([1, 2, 4, 10]); f += ["-j", str(j)]
     if rng.chance(1, 3) or focus == "C05":
@@ -319,6 +323,18 @@ def run(tier="quick", seed=1, work=None, replay=None, focus="C01", ncases=None):
                 for k in range(1, 3 if focus == "C03" else 2):
                     rerun_fixed_point(rep, drv, contents, res, k, case_dir, src_root, dst_root, flags, cfg, env, excl)
             if res and focus in ("C02", "C17"):
+                if focus == "C02" and caps.get("hardlink") and rng.chance(1, 2):
+                    # a snapshot of the destination made with hard links (cp -al) OUTSIDE both roots: whatever later runs
+                    # do to the destination, they must not write through the shared inodes (seeded change C02c)
+                    snap = os.path.join(out_root, "snap")
+                    for dp, dn, fn in os.walk(dst_root):
+                        for name in fn:
+                            pth = os.path.join(dp, name)
+                            if os.path.islink(pth) or not os.path.isfile(pth): continue
+                            q = os.path.join(snap, os.path.relpath(pth, dst_root)); os.makedirs(os.path.dirname(q), exist_ok=True)
+                            try: os.link(pth, q)
+                            except OSError: pass
+                    rep.tag("history.hardlink-snapshot-outside")
                 for h in range(2):
                     edit_source(rng, src_root, out_root)
                     flags2 = list(flags)
